@@ -648,10 +648,19 @@ func recSize(rr *DNSResourceRecord) (int, error) {
 			// prerequisite and delete records of a dynamic update
 			return 0, nil
 		}
+		if rr.IP.To4() == nil {
+			// neither 4 bytes nor an IPv4-mapped address (an A record
+			// decoded from RDATA of another size): writing zeroes in its
+			// place would silently change the record
+			return 0, fmt.Errorf("DNS A record with invalid IPv4 address (%d bytes)", len(rr.IP))
+		}
 		return 4, nil
 	case DNSTypeAAAA:
 		if len(rr.IP) == 0 {
 			return 0, nil
+		}
+		if len(rr.IP) != 16 {
+			return 0, fmt.Errorf("DNS AAAA record with invalid IPv6 address (%d bytes)", len(rr.IP))
 		}
 		return 16, nil
 	case DNSTypeNS:
